@@ -74,10 +74,15 @@ CHECKS.update({
  'C05': dict(text="Theorems C05_directed_weighted_consistent and C05_undirected_weighted_consistent (Coq): after any valid history on the DirectedWeightedGraph resp. UndirectedWeightedGraph model hasEdge/getEdgeWeight (throwing or not) answer from the spec "
                   "(weight at creation or last setEdgeWeight, addEdge on a present edge is a no-op, missing edge -> invalid_argument or 0), getEdgeNumber = #edges and getTotalWeight = "
                   "sum of present weights, in exact arithmetic. C05_weight_matrix / C05_*_all_observers: the weight matrix and the whole "
-                  "observation vector equal the spec's. PARTIAL only in that floating-point rounding ('within accumulated rounding error otherwise') is not modelled. Both classes are tied to /repo and the spec oracle by the correspondence "
+                  "observation vector equal the spec's. Floating point ('within accumulated rounding error otherwise'): C05_float_total_error / _closed_form / _undirected_getter_error / "
+                  "_total_exact_on_quarters about FloatTotal, an executable Flocq model of the running long double total (binary64 weights, x87 extended accumulator, double subtraction in "
+                  "setEdgeWeight): for every history without overflow |total - exact sum of stored weights| <= the accumulated local rounding errors <= ((1+2^-52)^n - 1) * sum|increments|, "
+                  "and no rounding at all for quarter-integer weights (the harness's exact stream). PARTIAL: floating-point bulk removals and overflow are outside. Both classes are tied to /repo and the spec oracle by the correspondence "
                   "check with exactly representable weights k/4 (negative, zero, positive).",
-             note=TB + "Weights are exact integers in units of 1/4; long double accumulation and rounding are outside the model (DESIGN.md §10).",
-             tech="Coq refinement proof (directed and undirected weighted models -> weight-function spec, exact arithmetic) + differential correspondence for both classes", ref="DESIGN.md §6 C05"),
+             note=TB + "Class models: weights are exact integers in units of 1/4. Float model: tied to /repo by comparing getTotalWeight() BIT FOR BIT after every call on histories with "
+                  "arbitrary double weights; assumes long double = x87 extended and double arithmetic in binary64. The C05_float_* theorems depend on the standard library's real-number "
+                  "axioms (ClassicalDedekindReals.sig_forall_dec, sig_not_dec, Classical_Prop.classic, FunctionalExtensionality.functional_extensionality_dep); all other theorems on none.",
+             tech="Coq refinement proof (weighted models -> weight-function spec, exact arithmetic) + Flocq proof of the rounding-error bound of the running total + differential correspondence (bit-exact for the float total)", ref="DESIGN.md §6 C05"),
 })
 CHECKS.update({
  'C09': dict(text="Theorems C09_reversed, C09_reversed_twice, C09_edge_list_constructor (Coq, directed labelled model, every label type): getReversedGraph = exactly the flipped edges with "
@@ -113,11 +118,17 @@ CHECKS.update({
              tech="Coq proof (layered-queue BFS invariant; simulation of the all-predecessor search; parent-chain and stack-loop enumeration) + exhaustive small-graph correspondence with a brute-force oracle", ref="DESIGN.md §6 C11, App. A"),
  'C12': dict(text="Theorem C12_dijkstra_correct (Coq): for EVERY pop sequence in which each pop is a worklist member of minimum tentative distance and which empties the worklist - zero "
                   "weights and cycles included - distances are the minimum walk weights (none iff unreachable), the source is its own predecessor, unreachable vertices have none, every "
-                  "other vertex v has an edge (p,v,w) with dist[v] = dist[p] + w, and at most 1+E pops happen; C12_progress: a legal pop always exists. Tie: the harness records the pop "
+                  "other vertex v has an edge (p,v,w) with dist[v] = dist[p] + w, and at most 1+E pops happen; C12_progress: a legal pop always exists. Floating point: C12_generic_dijkstra (the same search over an abstract distance type with a monotone, inflationary "
+                  "extension operator yields minimal path costs - no cancellation law needed) instantiated with binary64 and one rounded addition per relaxation (FloatDj.fdj_run, "
+                  "executable): C12_float_distances / _predecessors / _distances_schedule_independent / _rounding_bound (within (1 -+ 2^-53)^(n-1) of the true real minimum) / "
+                  "_exact_on_quarters (exact for quarter-integer weights). Tie: the harness records the pop "
                   "sequence of the real search on a counting graph type; the model replays it (rejecting any non-minimal pop) and compares distances exactly; the spec side uses Bellman-Ford "
                   "and validates the returned predecessor vector.",
-             note=TB + "std::make_heap/pop_heap are not modelled: any legal choice is admitted. Exact arithmetic (weights k/4); rounding is outside the model.",
-             tech="Coq proof (label-correcting invariant + greedy lemma, choice-driven) + correspondence replaying the implementation's pop sequence", ref="DESIGN.md §6 C12, App. A"),
+             note=TB + "std::make_heap/pop_heap are not modelled: any legal choice is admitted. First group of theorems: exact arithmetic (weights k/4). Float group: tied to /repo by comparing "
+                  "the distances BIT FOR BIT on graphs with arbitrary non-negative double weights; overflow to infinity and negative weights are outside; the C12_float_* theorems depend "
+                  "on the standard library's real-number axioms (ClassicalDedekindReals.sig_forall_dec, sig_not_dec, Classical_Prop.classic, "
+                  "FunctionalExtensionality.functional_extensionality_dep), the others on none.",
+             tech="Coq proof (label-correcting invariant + greedy lemma, choice-driven; generic over monotone inflationary path costs; Flocq rounding bound) + correspondence replaying the implementation's pop sequence (bit-exact for double weights)", ref="DESIGN.md §6 C12, App. A"),
  'C19': dict(text="Theorems C19_single_predecessor_scans (<= V scans, fuel V suffices), C19_all_predecessors_scans (<= V scans for findAllVertexPredecessors) and C19_dijkstra_scans (<= 1+E "
                   "pops for any legal run) (Coq). Tie: the getOutNeighbours calls of the three searches on a counting graph type are compared with "
                   "the model counters and with V, V+E, V+E+1 on layered/grid families (exponentially many shortest paths), zero-weight cycles and random graphs, plus a change-directed "
